@@ -853,6 +853,464 @@ Proof.
       eapply sublist_trans; [|exact HK]. unfold held. rewrite map_app. apply sublist_app_r, sublist_refl.
 Qed.
 
+(* ------------------------------------------------------------------ the monitor is the property *)
+(* the frame a connection receives for datagram [d] of sender [src] *)
+Definition frame_of (src : bytes) (d : dgram) : oframe := OD src (d_ecn d) (d_seg d) (d_data d).
+
+(* One connection, authenticated as [dst], on whose socket the frames [fs] were observed:
+   for EVERY id [src], the datagram frames among [fs] that name [src] as their sender are,
+   in the order observed, exactly the frames [frame_of src d] of a sublist [ds] (order kept,
+   every send used at most once) of [pair_sends i src dst] - the datagrams which the case's
+   connections authenticated as [src] sent, in that order, in well-formed frames addressed to
+   [dst].  In particular a frame naming a sender that sent nothing to [dst] (or an id of no
+   connection at all) cannot occur, and ecn, segment size and contents are those sent. *)
+Definition conn_spec (i : input) (dst : bytes) (fs : list oframe) : Prop :=
+  forall src, exists ds,
+    sublist ds (pair_sends i src dst) /\ filter (from_src src) fs = map (frame_of src) ds.
+
+(* The run was observed (no harness failure), there is one observation per connection of the
+   case, and each connection's frames satisfy [conn_spec] for that connection's id. *)
+Definition spec (i : input) (o : output) : Prop :=
+  exists l, o = Ok l /\
+    Forall2 (fun dst x => conn_spec i dst (snd x)) (conn_ids (i_ops i)) l.
+
+Lemma subseq_emb : forall ds fs, subseq fs ds = true -> emb fs ds.
+Proof.
+  induction ds as [|d ds IH]; intros [|f fs] H; cbn [subseq] in H; [constructor|discriminate|constructor|].
+  destruct (dg_matches d f) eqn:E.
+  - apply emb_take; [exact E|apply IH, H].
+  - apply emb_skip. apply IH, H.
+Qed.
+
+Lemma opt_N_eqb_eq (a b : option N) : opt_eqb N.eqb a b = true -> a = b.
+Proof. destruct a, b; cbn; try discriminate; try reflexivity. intros H. apply N.eqb_eq in H. now subst. Qed.
+
+Lemma matches_frame_of src d f :
+  dg_matches d f = true -> from_src src f = true -> f = frame_of src d.
+Proof.
+  destruct f; cbn; try discriminate. intros H Hs.
+  apply andb_prop in H as [H H3]. apply andb_prop in H as [H1 H2].
+  apply bytes_eqb_eq in Hs, H3. apply N.eqb_eq in H1. apply opt_N_eqb_eq in H2.
+  unfold frame_of. congruence.
+Qed.
+
+Lemma dg_matches_frame_of src d : dg_matches d (frame_of src d) = true.
+Proof. exact (dg_matches_obs src d). Qed.
+
+Lemma emb_sublist src : forall fs ds, emb fs ds ->
+  Forall (fun f => from_src src f = true) fs ->
+  exists ds', sublist ds' ds /\ fs = map (frame_of src) ds'.
+Proof.
+  induction 1 as [ds|d fs ds H IH|f d fs ds Hm H IH]; intros HF.
+  - exists []. split; [constructor|reflexivity].
+  - destruct (IH HF) as (ds' & S & E). exists ds'. split; [now apply sl_skip|exact E].
+  - inversion HF as [|? ? Hf HF']; subst. destruct (IH HF') as (ds' & S & E).
+    exists (d :: ds'). split; [now apply sl_take|]. cbn [map]. f_equal; [|exact E].
+    now apply matches_frame_of.
+Qed.
+
+Lemma sublist_emb_frames src (ds' ds : list dgram) :
+  sublist ds' ds -> emb (map (frame_of src) ds') ds.
+Proof.
+  induction 1 as [L|x l1 l2 H IH|x l1 l2 H IH]; cbn [map].
+  - constructor.
+  - now apply emb_skip.
+  - apply emb_take; [apply dg_matches_frame_of|exact IH].
+Qed.
+
+Lemma sublist_In {A} (l L : list A) x : sublist l L -> In x l -> In x L.
+Proof.
+  induction 1 as [L|y l1 l2 H IH|y l1 l2 H IH]; cbn; intros Hin; [contradiction|auto|].
+  destruct Hin as [->|Hin]; auto.
+Qed.
+
+Lemma dsends_src i s d dg : In (s, d, dg) (dsends i) -> In s (conn_ids (i_ops i)).
+Proof.
+  unfold dsends. intros H. apply in_flat_map in H as (kr & _ & H).
+  destruct (nth_error (conn_ids (i_ops i)) (N.to_nat (fst kr))) as [src|] eqn:E; [|contradiction].
+  destruct (decode (valid (cfg_of i)) (snd kr)) as [[dst0 d0|?|?]|?|]; try contradiction.
+  destruct H as [H|[]]. injection H as <- _ _. eapply nth_error_In; eauto.
+Qed.
+
+Lemma pair_sends_src i src dst d : In d (pair_sends i src dst) -> In src (conn_ids (i_ops i)).
+Proof.
+  unfold pair_sends. intros H. apply in_map_iff in H as ([[s d0] dg] & _ & H).
+  apply filter_In in H as [H E]. cbn [fst snd] in E. apply andb_prop in E as [E _].
+  apply bytes_eqb_eq in E. subst s. eapply dsends_src; eauto.
+Qed.
+
+Lemma existsb_bytes_In src (l : list bytes) : existsb (bytes_eqb src) l = true <-> In src l.
+Proof.
+  split.
+  - intros H. apply existsb_exists in H as (k & Hk & E). apply bytes_eqb_eq in E. now subst.
+  - intros H. apply existsb_exists. exists src. split; [exact H|apply bytes_eqb_refl].
+Qed.
+
+Lemma conn_sound_spec i dst fs : conn_sound i dst fs = true <-> conn_spec i dst fs.
+Proof.
+  unfold conn_sound, conn_spec. set (srcs := conn_ids (i_ops i)). split.
+  - intros H. apply andb_prop in H as [H1 H2]. rewrite forallb_forall in H1, H2. intros src.
+    destruct (existsb (bytes_eqb src) srcs) eqn:Ein.
+    + apply existsb_bytes_In in Ein. specialize (H2 src Ein). apply subseq_emb in H2.
+      apply (emb_sublist src) in H2; [exact H2|].
+      apply Forall_forall. intros f Hf. apply filter_In in Hf. tauto.
+    + exists []. split; [constructor|]. cbn [map].
+      destruct (filter (from_src src) fs) as [|f r] eqn:Ef; [reflexivity|exfalso].
+      assert (Hf : In f (filter (from_src src) fs)) by (rewrite Ef; now left).
+      apply filter_In in Hf as [Hf Hs]. specialize (H1 f Hf).
+      destruct f; try discriminate. cbn in Hs, H1. apply bytes_eqb_eq in Hs. subst src0.
+      apply existsb_exists in H1 as (k & Hk & E). apply bytes_eqb_eq in E. subst k.
+      apply existsb_bytes_In in Hk. congruence.
+  - intros H. apply andb_true_intro. split; apply forallb_forall.
+    + intros f Hf. destruct f; try reflexivity. cbn [is_od negb orb].
+      destruct (H src) as (ds & S & E).
+      assert (Hin : In (OD src ecn seg data) (filter (from_src src) fs)).
+      { apply filter_In. split; [exact Hf|]. cbn. apply bytes_eqb_refl. }
+      rewrite E in Hin. apply in_map_iff in Hin as (d & _ & Hd).
+      apply (sublist_In _ _ _ S) in Hd. apply pair_sends_src in Hd.
+      apply existsb_exists. exists src. split; [exact Hd|]. cbn. apply bytes_eqb_refl.
+    + intros src _. destruct (H src) as (ds & S & E). rewrite E.
+      apply emb_subseq, sublist_emb_frames, S.
+Qed.
+
+Lemma forallb_combine_Forall2 {A B} (f : A * B -> bool) : forall (l1 : list A) (l2 : list B),
+  (Nat.eqb (length l2) (length l1) && forallb f (combine l1 l2) = true) <->
+  Forall2 (fun a b => f (a, b) = true) l1 l2.
+Proof.
+  induction l1 as [|a l1 IH]; intros [|b l2]; cbn [length combine forallb Nat.eqb andb].
+  - split; [constructor|reflexivity].
+  - split; [discriminate|intros H; inversion H].
+  - split; [discriminate|intros H; inversion H].
+  - split.
+    + intros H. apply andb_prop in H as [H1 H2]. apply andb_prop in H2 as [H2 H3].
+      constructor; [exact H2|]. apply IH. now rewrite H1, H3.
+    + intros H. inversion H as [|? ? ? ? H1 H2]; subst. apply IH in H2.
+      apply andb_prop in H2 as [H2 H3]. now rewrite H1, H2, H3.
+Qed.
+
+Lemma Forall2_imp {A B} (P Q : A -> B -> Prop) l1 l2 :
+  (forall a b, P a b -> Q a b) -> Forall2 P l1 l2 -> Forall2 Q l1 l2.
+Proof. intros H. induction 1; constructor; auto. Qed.
+
+Lemma monitor_spec i o : C04.monitor i o = true <-> spec i o.
+Proof.
+  unfold C04.monitor, spec. destruct o as [l|e|].
+  - rewrite (forallb_combine_Forall2 (fun x => conn_sound i (fst x) (snd (snd x)))). cbn [fst snd].
+    split.
+    + intros H. exists l. split; [reflexivity|].
+      eapply Forall2_imp; [|exact H]. cbn beta. intros a b. apply conn_sound_spec.
+    + intros (l' & E & H). injection E as <-.
+      eapply Forall2_imp; [|exact H]. cbn beta. intros a b. apply conn_sound_spec.
+  - split; [discriminate|]. intros (l' & E & _). discriminate.
+  - split; [discriminate|]. intros (l' & E & _). discriminate.
+Qed.
+
+(* [monitor] judges each connection on its own: it does NOT say that a datagram is not
+   delivered on two connections of one id.  Witness: B is connected twice, A sends ONE
+   datagram to B, and an observation showing that datagram on both of B's sockets passes. *)
+Example monitor_is_per_connection :
+  let i := mkInput 0 [(idA, true); (idB, true)]
+             [OConnect idA 2; OConnect idB 2; OConnect idB 2; OSend 0 (4 :: idB ++ [1; 9])] in
+  let o := Ok [(true, []); (true, [OD idA 1 None [9]]); (true, [OD idA 1 None [9]])] in
+  length (dsends i) = 1%nat /\ C04.monitor i o = true /\ C04.agree i o = false.
+Proof. vm_compute. repeat split. Qed.
+
+(* ------------------------------------------------------------------ across the connections of one id *)
+(* Frames carry no identity of the send they stem from, so on observed frames "not delivered
+   on two connections of one id" is a statement about numbers: on all sockets of connections
+   authenticated as [dst] together, the frame (src, d) shows up at most as often as
+   connections authenticated as [src] sent d to [dst]. *)
+Definition dgram_eqb (a b : dgram) : bool :=
+  N.eqb (d_ecn a) (d_ecn b) && opt_eqb N.eqb (d_seg a) (d_seg b) && bytes_eqb (d_data a) (d_data b).
+Definition sd_eqb (x y : bytes * dgram) : bool := bytes_eqb (fst x) (fst y) && dgram_eqb (snd x) (snd y).
+Definition cnt (x : bytes * dgram) (l : list (bytes * dgram)) : nat := length (filter (sd_eqb x) l).
+
+Fixpoint lsum (l : list nat) : nat := match l with [] => 0%nat | x :: r => (x + lsum r)%nat end.
+
+(* how often frame [f] was observed on the sockets of the connections whose id is [dst] *)
+Definition cross_count (idl : list bytes) (l : list (bool * list oframe)) (dst : bytes) (f : oframe) : nat :=
+  lsum (map (fun x => if bytes_eqb (fst x) dst then count f (snd (snd x)) else 0%nat) (combine idl l)).
+
+Definition cross_once (i : input) (src : bytes) (l : list (bool * list oframe)) : Prop :=
+  forall dst d,
+    (cross_count (conn_ids (i_ops i)) l dst (frame_of src d)
+     <= length (filter (dgram_eqb d) (pair_sends i src dst)))%nat.
+
+Lemma bytes_eqb_sym a b : bytes_eqb a b = bytes_eqb b a.
+Proof.
+  destruct (bytes_eqb a b) eqn:E1, (bytes_eqb b a) eqn:E2; try reflexivity.
+  - apply bytes_eqb_eq in E1. subst. now rewrite bytes_eqb_refl in E2.
+  - apply bytes_eqb_eq in E2. subst. now rewrite bytes_eqb_refl in E1.
+Qed.
+
+Lemma sublist_length {A} (l L : list A) : sublist l L -> (length l <= length L)%nat.
+Proof. induction 1; cbn; lia. Qed.
+
+Lemma sublist_cnt x l L : sublist l L -> (cnt x l <= cnt x L)%nat.
+Proof. intros H. unfold cnt. apply sublist_length, sublist_filter, H. Qed.
+
+Lemma cnt_app x a b : cnt x (a ++ b) = (cnt x a + cnt x b)%nat.
+Proof. unfold cnt. now rewrite filter_app, app_length. Qed.
+
+Lemma nth_error_tl {A} (l : list A) n : nth_error (tl l) n = nth_error l (S n).
+Proof. destruct l; [destruct n|]; reflexivity. Qed.
+
+Lemma sum_pointwise {A} (g : A -> nat) : forall (l' l : list A) (ind : nat -> nat),
+  (forall n c', nth_error l' n = Some c' ->
+     (exists c, nth_error l n = Some c /\ (g c' <= g c + ind n)%nat) \/ (nth_error l n = None /\ g c' = 0%nat)) ->
+  (lsum (map g l') <= lsum (map g l) + lsum (map ind (seq 0 (length l'))))%nat.
+Proof.
+  induction l' as [|c' l' IH]; intros l ind H; [cbn; lia|].
+  cbn [map lsum length seq].
+  specialize (IH (tl l) (fun n => ind (S n))).
+  assert (IH' : (lsum (map g l') <= lsum (map g (tl l)) + lsum (map ind (seq 1 (length l'))))%nat).
+  { rewrite <- seq_shift, map_map. apply IH. intros n c1 Hn. rewrite nth_error_tl. apply (H (S n) c1 Hn). }
+  destruct (H 0%nat c' eq_refl) as [(c & Hc & Hle)|(Hnone & Hz)].
+  - destruct l as [|c0 r]; [discriminate|]. injection Hc as ->. cbn [map lsum tl] in *. lia.
+  - destruct l as [|c0 r]; [|discriminate]. cbn [map lsum tl] in *. lia.
+Qed.
+
+Lemma ind_sum_zero k0 (dl : nat) : forall n a, (k0 < a)%nat ->
+  lsum (map (fun k => if Nat.eqb k k0 then dl else 0%nat) (seq a n)) = 0%nat.
+Proof.
+  induction n as [|n IH]; intros a Ha; [reflexivity|]. cbn [seq map lsum].
+  rewrite IH by lia. destruct (Nat.eqb_spec a k0); lia.
+Qed.
+
+Lemma ind_sum k0 (dl : nat) : forall n a,
+  (lsum (map (fun k => if Nat.eqb k k0 then dl else 0%nat) (seq a n)) <= dl)%nat.
+Proof.
+  induction n as [|n IH]; intros a; [cbn; lia|]. cbn [seq map lsum].
+  destruct (Nat.eqb_spec a k0) as [->|Hne].
+  - rewrite ind_sum_zero by lia. lia.
+  - specialize (IH (S a)). lia.
+Qed.
+
+Lemma lsum_le {A} (g h : A -> nat) l :
+  (forall c, In c l -> (g c <= h c)%nat) -> (lsum (map g l) <= lsum (map h l))%nat.
+Proof.
+  induction l as [|c l IH]; intros H; [cbn; lia|]. cbn [map lsum].
+  pose proof (H c (or_introl eq_refl)). assert (forall c0, In c0 l -> (g c0 <= h c0)%nat) by (intros; apply H; now right).
+  specialize (IH H1). lia.
+Qed.
+
+Definition contrib (dst : bytes) (x : bytes * dgram) (c : conn) : nat :=
+  if bytes_eqb (c_id c) dst then cnt x (held c) else 0%nat.
+Definition total (dst : bytes) (x : bytes * dgram) (cs : list conn) : nat := lsum (map (contrib dst x) cs).
+
+(* the connection whose queue a step pushes to (if it pushes) *)
+Definition target (cfg : cfg) (s : state) (e : event) : N :=
+  match e with
+  | ERecv _ raw =>
+      match decode (valid cfg) raw with
+      | Ok (CDatagrams dst _) => match find_entry dst (reg s) with Some en => e_active en | None => 0 end
+      | _ => 0
+      end
+  | _ => 0
+  end.
+
+Lemma held_same c c' : c_pq c' = c_pq c -> c_out c' = c_out c -> held c' = held c.
+Proof. unfold held. now intros -> ->. Qed.
+
+Lemma total_step cfg t e dst x :
+  (total dst x (conns (step cfg (run cfg t) e)) <=
+   total dst x (conns (run cfg t)) +
+   cnt x (to_dst dst (dsend_of (ids (step cfg (run cfg t) e)) (valid cfg) e)))%nat.
+Proof.
+  set (s := run cfg t). set (s' := step cfg s e).
+  set (dl := cnt x (to_dst dst (dsend_of (ids s') (valid cfg) e))).
+  unfold total.
+  eapply Nat.le_trans;
+    [apply (sum_pointwise (contrib dst x) (conns s') (conns s)
+              (fun k => if Nat.eqb k (N.to_nat (target cfg s e)) then dl else 0%nat))|].
+  2:{ pose proof (ind_sum (N.to_nat (target cfg s e)) dl (length (conns s')) 0). lia. }
+  intros n c' Hn.
+  assert (Hg : getc s' (N.of_nat n) = Some c') by (unfold getc; now rewrite Nat2N.id).
+  assert (Hgs : forall c, getc s (N.of_nat n) = c -> nth_error (conns s) n = c)
+    by (unfold getc; now rewrite Nat2N.id).
+  destruct (step_srel cfg s e _ c' Hg) as [(c & Hc & Hrel)|(Hnone & Hq & Ho)].
+  - left. exists c. split; [now apply Hgs|].
+    destruct Hrel as [(E1 & E2 & E3)|y Hy E1 E2 E3|k' raw cs dst0 d en He Hk' Hph Hd Hf Hact E1 E2 E3
+                     |p q Hq E2 E3 E1|p q Hq E2 E3 E1]; unfold contrib; rewrite E1.
+    + rewrite (held_same c c' E2 E3). lia.
+    + assert (held c' = held c) as ->; [|lia]. unfold held. rewrite E2, E3, out_pkts_app.
+      assert (out_pkts [y] = []) as -> by (destruct y; try reflexivity; exfalso; eapply Hy; reflexivity).
+      now rewrite app_nil_r.
+    + assert (Hid : c_id c = dst0).
+      { destruct (Inv_run cfg t) as [_ HR]. fold s in HR.
+        apply find_entry_some in Hf as [Hin Hid].
+        destruct (HR en Hin _ (or_introl (eq_sym Hact))) as (c0 & Hg0 & Hc0).
+        rewrite Hc in Hg0. injection Hg0 as <-. congruence. }
+      assert (Ht : N.to_nat (target cfg s e) = n).
+      { subst e. cbn [target]. rewrite Hd, Hf, Hact. apply Nat2N.id. }
+      rewrite Ht, Nat.eqb_refl.
+      assert (Hh : held c' = held c ++ [(c_id cs, d)]).
+      { unfold held. rewrite E2, E3, app_assoc, map_app. reflexivity. }
+      rewrite Hh, cnt_app.
+      assert (Hdl : dl = if bytes_eqb dst0 dst then cnt x [(c_id cs, d)] else 0%nat).
+      { unfold dl. subst e. cbn [dsend_of].
+        assert (Hx : exists xs, ids s' = ids s ++ xs) by (unfold s'; rewrite ids_step; eauto).
+        destruct Hx as [xs Hx]. rewrite Hx, nth_error_app1, (getc_ids s k' cs Hk'), Hd.
+        - unfold to_dst. cbn [filter fst snd]. destruct (bytes_eqb dst0 dst); reflexivity.
+        - apply nth_error_Some. rewrite (getc_ids s k' cs Hk'). discriminate. }
+      rewrite Hdl, Hid. destruct (bytes_eqb dst0 dst); lia.
+    + assert (held c' = held c) as ->; [|lia]. unfold held.
+      rewrite E2, E3, Hq, out_pkts_app. cbn [out_pkts]. now rewrite <- app_assoc.
+    + assert (Hs : sublist (held c') (held c)).
+      { unfold held. rewrite E2, E3, Hq. apply sublist_map, sublist_remove_mid. }
+      pose proof (sublist_cnt x _ _ Hs). destruct (bytes_eqb (c_id c) dst); lia.
+  - right. split; [now apply Hgs|]. unfold contrib, held. rewrite Hq, Ho. cbn.
+    now destruct (bytes_eqb (c_id c') dst).
+Qed.
+
+Lemma ginv_run cfg t dst x :
+  (total dst x (conns (run cfg t)) <= cnt x (to_dst dst (dsends_of (ids (run cfg t)) (valid cfg) t)))%nat.
+Proof.
+  induction t as [|e t IH] using rev_ind; [cbn; lia|].
+  pose proof (total_step cfg t e dst x) as Hs. rewrite run_snoc.
+  set (s := run cfg t) in *. set (s' := step cfg s e) in *.
+  assert (Hx : exists xs, ids s' = ids s ++ xs) by (unfold s'; rewrite ids_step; eauto).
+  destruct Hx as [xs Hx].
+  unfold dsends_of. rewrite flat_map_app, to_dst_app, cnt_app. cbn [flat_map]. rewrite app_nil_r.
+  assert (Hm : (cnt x (to_dst dst (dsends_of (ids s) (valid cfg) t)) <=
+                cnt x (to_dst dst (flat_map (dsend_of (ids s') (valid cfg)) t)))%nat).
+  { apply sublist_cnt, to_dst_mono. rewrite Hx. apply dsends_of_mono. }
+  lia.
+Qed.
+
+(* ---- from states to observed frames ---- *)
+Lemma count_obs src d o :
+  count (frame_of src d) (map obs_frame o) = cnt (src, d) (map (fun p => (p_src p, p_dg p)) (out_pkts o)).
+Proof.
+  unfold count, cnt. induction o as [|f o IH]; [reflexivity|].
+  destruct f; cbn [map obs_frame out_pkts filter oframe_eqb frame_of]; try exact IH.
+  unfold sd_eqb, dgram_eqb at 1. cbn [fst snd].
+  rewrite <- !andb_assoc.
+  destruct (bytes_eqb src (p_src p) && (N.eqb (d_ecn d) (d_ecn (p_dg p)) &&
+            (opt_eqb N.eqb (d_seg d) (d_seg (p_dg p)) && bytes_eqb (d_data d) (d_data (p_dg p)))));
+    cbn [length]; now rewrite IH.
+Qed.
+
+Lemma cnt_pair_sends src d (M : list (bytes * dgram)) :
+  cnt (src, d) M = length (filter (dgram_eqb d) (map snd (filter (fun x => bytes_eqb (fst x) src) M))).
+Proof.
+  unfold cnt. induction M as [|y M IH]; [reflexivity|]. cbn [filter]. unfold sd_eqb at 1. cbn [fst snd].
+  rewrite (bytes_eqb_sym src (fst y)).
+  destruct (bytes_eqb (fst y) src); cbn [andb map filter]; [|exact IH].
+  destruct (dgram_eqb d (snd y)); cbn [length]; now rewrite IH.
+Qed.
+
+Lemma model_cross_once i src :
+  exists l, C04.model i = Ok l /\ cross_once i src l.
+Proof.
+  unfold C04.model. eexists. split; [reflexivity|]. intros dst d.
+  set (cfg := cfg_of i). set (ops := i_ops i).
+  destruct (sched_exec cfg ops) as [H1 H2 H3].
+  pose proof (erecvs_exec cfg ops) as HE.
+  set (sF := fst (exec cfg ops)) in *. set (t := rev (snd (exec cfg ops))) in *.
+  assert (Hds : dsends i = dsends_of (ids sF) (valid cfg) t).
+  { unfold dsends. rewrite dsends_of_erecvs, HE, H2. reflexivity. }
+  unfold cross_count, observe. rewrite <- H2. unfold ids at 1. rewrite combine_map2, map_map. cbn [fst snd].
+  unfold pair_sends. rewrite Hds, pair_sends_to_dst, <- cnt_pair_sends.
+  pose proof (ginv_run cfg t dst (src, d)) as HG. rewrite <- H1 in HG.
+  eapply Nat.le_trans; [|exact HG]. unfold total. apply lsum_le. intros c _. unfold contrib.
+  destruct (bytes_eqb (c_id c) dst); [|lia].
+  rewrite count_obs. apply sublist_cnt. unfold held. rewrite map_app. apply sublist_app_r, sublist_refl.
+Qed.
+
+(* ---- [agree] carries it over to the implementation's frames ---- *)
+Lemma oframe_eqb_od s e g x f : oframe_eqb (OD s e g x) f = true -> f = OD s e g x.
+Proof.
+  destruct f; cbn; try discriminate. intros H.
+  apply andb_prop in H as [H H4]. apply andb_prop in H as [H H3]. apply andb_prop in H as [H1 H2].
+  apply bytes_eqb_eq in H1, H4. apply N.eqb_eq in H2. apply opt_N_eqb_eq in H3. congruence.
+Qed.
+
+Lemma list_eqb_od a : forall b, Forall (fun f => is_od f = true) a -> list_eqb oframe_eqb a b = true -> a = b.
+Proof.
+  induction a as [|f a IH]; intros [|g b] HF H; cbn in H; try discriminate; [reflexivity|].
+  inversion HF as [|? ? Hf HF']; subst. apply andb_prop in H as [H1 H2].
+  destruct f; try discriminate. apply oframe_eqb_od in H1. subst g. f_equal. now apply IH.
+Qed.
+
+Lemma count_from_src src d fs :
+  count (frame_of src d) fs = count (frame_of src d) (filter (from_src src) fs).
+Proof.
+  unfold count. induction fs as [|f fs IH]; [reflexivity|]. cbn [filter].
+  destruct (oframe_eqb (frame_of src d) f) eqn:E.
+  - apply oframe_eqb_od in E. subst f. cbn [from_src frame_of]. rewrite bytes_eqb_refl.
+    cbn [filter]. unfold frame_of in IH |- *.
+    assert (R : oframe_eqb (OD src (d_ecn d) (d_seg d) (d_data d)) (OD src (d_ecn d) (d_seg d) (d_data d)) = true).
+    { cbn. rewrite !bytes_eqb_refl, N.eqb_refl. destruct (d_seg d); cbn; [now rewrite N.eqb_refl|reflexivity]. }
+    rewrite R. cbn [length]. now rewrite IH.
+  - destruct (from_src src f); [|exact IH]. cbn [filter]. rewrite E. exact IH.
+Qed.
+
+Lemma agree_count keys src d : In src keys -> forall idl (m l : list (bool * list oframe)),
+  list_eqb (conn_agree keys) m l = true -> forall dst,
+  cross_count idl l dst (frame_of src d) = cross_count idl m dst (frame_of src d).
+Proof.
+  intros Hin idl. unfold cross_count.
+  induction idl as [|id idl IH]; intros m l H dst; [reflexivity|].
+  destruct m as [|mj m], l as [|lj l]; cbn in H; try discriminate; [reflexivity|].
+  apply andb_prop in H as [Hj H]. cbn [combine map lsum fst snd]. rewrite (IH m l H dst). f_equal.
+  destruct (bytes_eqb id dst); [|reflexivity].
+  unfold conn_agree in Hj. apply andb_prop in Hj as [_ Hj]. unfold frames_agree in Hj.
+  apply andb_prop in Hj as [Hj _]. apply andb_prop in Hj as [_ Hj].
+  rewrite forallb_forall in Hj. specialize (Hj src Hin).
+  apply list_eqb_od in Hj.
+  - rewrite (count_from_src src d (snd lj)), (count_from_src src d (snd mj)). now rewrite Hj.
+  - apply Forall_forall. intros f Hf. apply filter_In in Hf as [_ Hf]. now destruct f.
+Qed.
+
+Lemma agree_cross_once i o src :
+  C04.agree i o = true -> In src (map fst (i_keys i)) ->
+  exists l, o = Ok l /\ cross_once i src l.
+Proof.
+  intros H Hin. destruct (model_cross_once i src) as (m & Hm & Hc).
+  unfold C04.agree in H. rewrite Hm in H. destruct o as [l|?|]; try discriminate.
+  exists l. split; [reflexivity|]. intros dst d.
+  rewrite (agree_count _ src d Hin _ m l H dst). apply Hc.
+Qed.
+
+(* the statement has content: the observation that [monitor] lets through is refused here *)
+Example cross_once_rejects :
+  let i := mkInput 0 [(idA, true); (idB, true)]
+             [OConnect idA 2; OConnect idB 2; OConnect idB 2; OSend 0 (4 :: idB ++ [1; 9])] in
+  ~ cross_once i idA [(true, []); (true, [OD idA 1 None [9]]); (true, [OD idA 1 None [9]])].
+Proof.
+  intros i H. specialize (H idB (mkDg 1 None [9])). vm_compute in H. lia.
+Qed.
+
+(* for ids of no connection [monitor] already says that no frame names them; so when the
+   key table of the case lists the ids of its connections (the harness builds it so),
+   [agree] and [monitor] together give the bound for every sender *)
+Lemma monitor_cross_once_unconnected i l src :
+  C04.monitor i (Ok l) = true -> ~ In src (conn_ids (i_ops i)) -> cross_once i src l.
+Proof.
+  intros Hm Hn dst d. apply monitor_spec in Hm as (l' & E & HF). injection E as <-.
+  assert (HZ : Forall2 (fun (_ : bytes) x => count (frame_of src d) (snd x) = 0%nat) (conn_ids (i_ops i)) l).
+  { eapply Forall2_imp; [|exact HF]. cbn beta. intros id x Hx.
+    rewrite count_from_src. destruct (Hx src) as (ds & S & ->).
+    destruct ds as [|d0 ds]; [reflexivity|]. exfalso. apply Hn.
+    apply (pair_sends_src i src id d0). eapply sublist_In; [exact S|now left]. }
+  clear HF Hn. unfold cross_count.
+  induction HZ as [|id x idl l Hz HZ IH]; [cbn; lia|].
+  cbn [combine map lsum fst snd]. rewrite Hz. destruct (bytes_eqb id dst); cbn [Nat.add]; exact IH.
+Qed.
+
+Lemma judge_cross_once i o :
+  C04.agree i o = true -> C04.monitor i o = true ->
+  (forall id, In id (conn_ids (i_ops i)) -> In id (map fst (i_keys i))) ->
+  exists l, o = Ok l /\ forall src, cross_once i src l.
+Proof.
+  intros Ha Hm Hk. destruct o as [l|?|]; try discriminate. exists l. split; [reflexivity|]. intros src.
+  destruct (existsb (bytes_eqb src) (conn_ids (i_ops i))) eqn:E.
+  - apply existsb_bytes_In in E. destruct (agree_cross_once i (Ok l) src Ha (Hk src E)) as (l' & El & H).
+    now injection El as <-.
+  - apply monitor_cross_once_unconnected; [exact Hm|]. intros Hin. apply existsb_bytes_In in Hin. congruence.
+Qed.
+
 (* ------------------------------------------------------------------ examples *)
 (* Two connections of B; A's datagram reaches only the newer (active) one, attributed to A;
    after the active one closes the older one is promoted and receives the next datagram. *)
